@@ -131,6 +131,7 @@ def _gen_case(rng, tier, g):
             # purposes must not swallow a source failure)
             'exc_kinds': rng.sample(SOURCE_ERROR_KINDS,
                                     rng.choice([1, 2, 3])),
+            'transient': rng.random() < 0.3,
             'read_via': rng.choice(['conn', 'name', 'mkcurs', 'cursor',
                                     'proxy-mkcurs', 'proxy-cursor']),
             'arraysize': rng.choice([None, 1, 2, 4, 50]),
@@ -402,7 +403,8 @@ def _one(e, case, path, op, handle, commit, fault, log):
             else:
                 src = PipeFault(inner)
         elif fault is not None and fault[0] == 'raise':
-            src.arm(fault[1], kind=fault[2] if len(fault) > 2 else 'plain')
+            src.arm(fault[1], kind=fault[2] if len(fault) > 2 else 'plain',
+                    passes=1 if len(fault) > 3 else None)
             expect_exc = INJECTED_SOURCE_FAILURES
         source = e.convert(e.wrap(src), 0, lambda v: v) \
             if case['pipeline'] else src
@@ -552,6 +554,12 @@ def run_case(case):
     _SCHEMA[0] = case.get('schema')
     _TNAME[0] = case.get('tname', 't')
     _FLUENT[0] = bool(case.get('fluent'))
+    # a failure that would not repeat (a busy database, a timeout): armed for
+    # one pass over the source only - code that retries the load sees a
+    # healthy source the second time
+    if case.get('transient'):
+        faults = [f_ + ['once'] if f_ and f_[0] == 'raise' and len(f_) == 3
+                  else f_ for f_ in faults]
     fired = {'source-raise': 0, 'malformed-row': 0}
     try:
         with devices.TempSandbox() as sb:
